@@ -23,7 +23,7 @@ Inner == Struct("Inner", <<Field("X", "x", {}, Prim("int8")), Field("Y", "", {"o
 Emb == Struct("Emb", <<Field("A", "", {}, Prim("int8")), Field("B", "b", {"omitempty"}, Prim("string"))>>)
 Emb2 == Struct("Emb2", <<Field("A", "", {}, Prim("uint16")), Field("C", "c", {}, Prim("bool"))>>)
 \* non-struct types, nested to depth 2
-T1 == Prims \cup {Iface} \cup {Std(w) : w \in {"time", "level"}}
+T1 == Prims \cup {Iface, Struct("Empty", <<>>), MapOf(Struct("Empty", <<>>)), Array(Prim("uint8"), 3), Array(Array(Prim("uint8"), 2), 2)} \cup {Std(w) : w \in {"time", "level"}}
       \cup {Ptr(Std(w)) : w \in {"bigint", "bigrat", "bigfloat", "time"}}
 T2 == {Ptr(t) : t \in SomePrims \cup {Iface}} \cup {Slice(t) : t \in SomePrims \cup {Iface}}
       \cup {Array(t, 2) : t \in {Prim("int8"), Prim("string")}} \cup {MapOf(t) : t \in SomePrims \cup {Iface}}
@@ -33,7 +33,8 @@ T3 == {Ptr(Ptr(Prim("int8"))), Slice(Ptr(Prim("uint8"))), Slice(Slice(Prim("stri
 \* field types inside structs
 FT == {Prim("int8"), Prim("uint64"), Prim("string"), Prim("bool"), Prim("float32"), Ptr(Prim("int16")), Slice(Prim("string")),
        MapOf(Prim("int")), Iface, Inner, Ptr(Inner), Array(Prim("uint8"), 2), Std("time"), Ptr(Std("bigint")), Ptr(Prim("string")),
-       Ptr(Slice(Prim("string"))), Ptr(Ptr(Prim("int8"))), Ptr(MapOf(Prim("bool"))), Ptr(Iface)}
+       Ptr(Slice(Prim("string"))), Ptr(Ptr(Prim("int8"))), Ptr(MapOf(Prim("bool"))), Ptr(Iface),
+       Struct("Empty", <<>>), MapOf(Struct("Empty", <<>>)), Slice(Struct("Empty", <<>>)), Array(Prim("uint8"), 2), Slice(Array(Prim("uint8"), 2))}
 TagForms == {<<"", {}>>, <<"n", {}>>, <<"", {"omitempty"}>>, <<"", {"omitzero"}>>, <<"n", {"omitempty", "omitzero"}>>}
 \* one-field structs: every field type x every tag form, plus "-", "-," and unexported
 S1 == {Struct("S", <<Field("F", tf[1], tf[2], t)>>) : t \in FT, tf \in TagForms}
@@ -80,13 +81,19 @@ OMany == {Struct("S", <<Field("A", "", {}, Inner), Field("B", "", {}, Inner), Fi
 OTS == {Inner, Ptr(Inner), Slice(Inner), MapOf(Ptr(Inner)), Struct("S", <<Field("A", "", {}, Inner), Field("B", "b", {"omitempty"}, Ptr(Inner))>>),
         Struct("S", <<Embed("Emb", "value", Emb), Field("Z", "", {}, Prim("bool"))>>),
         Struct("S", <<Field("Z", "", {}, Prim("bool")), Embed("Emb", "ptr", Emb)>>)}
-TSConfs == [none |-> EmptyFcn,
+Inner2 == Struct("Inner2", <<Field("X", "", {}, Prim("int8"))>>)
+Mid == Struct("Mid", <<Field("A", "", {}, Prim("int8")), Embed("Inner2", "value", Inner2), Field("Y", "", {}, Prim("string"))>>)
+OTS2 == {Struct("S", <<Embed("Mid", "value", Mid), Field("Z", "", {}, Prim("bool"))>>),
+         Struct("S", <<Field("Z", "", {}, Prim("bool")), Embed("Mid", "value", Mid)>>), Mid}
+TSConfs == [inner2Emb |-> [Inner2 |-> [type |-> "object", properties |-> [X |-> [type |-> "string"]]]],
+            none |-> EmptyFcn,
             innerTyped |-> [Inner |-> [type |-> "object", description |-> "custom"]],
             innerUntyped |-> [Inner |-> [description |-> "custom"]],
             innerTypes |-> [Inner |-> [types |-> <<"object", "string">>]],
             embOverride |-> [Emb |-> [type |-> "object", properties |-> [q |-> [type |-> "string"], p |-> [type |-> "integer"]]]]]
 OCases == {[t |-> t, ign |-> ign, tsn |-> "none"] : t \in UNION {OBad, ORec, OMany}, ign \in BOOLEAN}
           \cup {[t |-> t, ign |-> FALSE, tsn |-> c] : t \in OTS, c \in {"innerTyped", "innerUntyped", "innerTypes", "embOverride"}}
+          \cup {[t |-> t, ign |-> FALSE, tsn |-> c] : t \in OTS2, c \in {"inner2Emb", "none"}}
 
 Types(z) ==
   CASE Family = "T" -> IF K >= 2 THEN UNION {T1, T2, T3} ELSE UNION {T1, T2}
